@@ -25,7 +25,7 @@ EVID = os.path.join(VERIF, "build", "evidence" + _TAG) if _TAG else os.path.join
 # per property: harness binaries with (share of the run-time budget, knobs that may be shrunk towards their minimum)
 PROPS = {
     "C17": {
-        "harnesses": {"c17_fence": 0.15, "c17_asm": 0.35, "c17_asm.race": 0.5},
+        "harnesses": {"c17_fence": 0.13, "c17_asm": 0.3, "c17_asm.race": 0.42, "c17_iso": 0.05, "c17_iso.race": 0.1},
         "budget_s": {"quick": 50, "thorough": 900},
         "min_runs": {"quick": 400, "thorough": 5000},
     },
